@@ -1,7 +1,7 @@
-(* C14 phase 2: agreement of the two reader models on modules without blackbox instances (part D4) *)
+(* C14 phase 2: agreement of the two reader models on the documented subset (part D4) *)
 From stdpp Require Import strings gmap sets pretty.
 From CG Require Import Model.FastVerilog Proofs.FastVerilogProofs Gen.Gen_fastv Base.Sem Base.Compose.
-From CG Require Import Proofs.FvA0 Proofs.FvA1 Proofs.FvA2 Proofs.FvA3 Proofs.FvA4 Proofs.FvA5 Proofs.FvA6 Proofs.FvA7 Proofs.FvA8 Proofs.FvA9 Proofs.FvA10 Proofs.FvB1 Proofs.FvB2 Proofs.FvB3 Proofs.FvB4 Proofs.FvB5 Proofs.FvC1 Proofs.FvC2 Proofs.FvD1 Proofs.FvD2 Proofs.FvD3.
+From CG Require Import Proofs.FvA0 Proofs.FvA1 Proofs.FvA2 Proofs.FvP1 Proofs.FvE1 Proofs.FvE2 Proofs.FvE3 Proofs.FvE4 Proofs.FvA3 Proofs.FvE5 Proofs.FvE6 Proofs.FvE7 Proofs.FvA4 Proofs.FvA5 Proofs.FvA6 Proofs.FvA7 Proofs.FvA8 Proofs.FvA9 Proofs.FvA10 Proofs.FvB1 Proofs.FvB2 Proofs.FvB3 Proofs.FvB4 Proofs.FvB5 Proofs.FvC1 Proofs.FvC2 Proofs.FvD1 Proofs.FvD2 Proofs.FvD3.
 Open Scope string_scope.
 
 Lemma rename_lookup (σ : string → string) `{!Inj (=) (=) σ} (c : circuit) m : (∀ n, σ (σ n) = n) →
@@ -9,10 +9,10 @@ Lemma rename_lookup (σ : string → string) `{!Inj (=) (=) σ} (c : circuit) m 
 Proof. intros Hinv. unfold rename. rewrite <- (Hinv m) at 1. by rewrite lookup_kmap, lookup_fmap. Qed.
 
 (* the right-hand side of finT_sym as a function *)
-Definition FS (a : ast) (t0 t1 : string) (m : string) : option ninfo :=
-  if decide (m = t0) then (if decide (OConst "1'b0" ∈ all_ops a) then Some (mk_node C0 false ∅) else None) else
-  if decide (m = t1) then (if decide (OConst "1'b1" ∈ all_ops a) then Some (mk_node C1 false ∅) else None) else
-  match symG a !! m with
+Definition FS (bbs : list bbdef) (a : ast) (t0 t1 : string) (m : string) : option ninfo :=
+  if decide (m = t0) then (if decide (OConst "1'b0" ∈ all_ops bbs a) then Some (mk_node C0 false ∅) else None) else
+  if decide (m = t1) then (if decide (OConst "1'b1" ∈ all_ops bbs a) then Some (mk_node C1 false ∅) else None) else
+  match symG bbs a !! m with
   | Some v => Some (mk_node v.1 (bool_decide (m ∈ decl_outputs a)) (list_to_set (nm t0 t1 <$> v.2)))
   | None => if decide (m ∈ decl_inputs a) then Some (mk_node Input (bool_decide (m ∈ decl_outputs a)) ∅) else None
   end.
@@ -20,21 +20,23 @@ Definition FS (a : ast) (t0 t1 : string) (m : string) : option ninfo :=
 Section swap.
   Variables (a : ast) (bbs : list bbdef).
   Hypothesis Hsub : in_subset a bbs = true.
-  Hypothesis Hni : no_inst a = true.
   Let HF := in_subset_facts a bbs Hsub.
   Variables (t0 t1 : string).
   Hypothesis Hfr : t0 ∉ idents a ∧ t1 ∉ idents a.
   Hypothesis Hd : distinct6 t0 t1 "?x".
+  Hypothesis Hdot : dotted t0 = false ∧ dotted t1 = false.
   Let σ := tie_swap t0 t1 "?x".
 
   Lemma six_neq : t0 ≠ t1 ∧ t0 ≠ "?x" ∧ t0 ≠ "1'b0" ∧ t0 ≠ "1'b1" ∧ t0 ≠ "1'bx" ∧ t1 ≠ "?x" ∧ t1 ≠ "1'b0" ∧ t1 ≠ "1'b1" ∧ t1 ≠ "1'bx".
   Proof. unfold distinct6 in Hd. rewrite !NoDup_cons, !elem_of_cons in Hd. naive_solver. Qed.
-  Lemma ident_not_six s : s ∈ idents a → s ∉ [t0; t1; "?x"; "1'b0"; "1'b1"; "1'bx"].
+  Definition keyish (s : string) : Prop := s ∈ idents a ∨ dotted s = true.
+  Lemma ident_not_six s : keyish s → s ∉ [t0; t1; "?x"; "1'b0"; "1'b1"; "1'bx"].
   Proof.
-    intros Hs. pose proof (sf_ident a bbs HF s Hs) as Hi. destruct Hfr as [H0 H1]. rewrite !elem_of_cons.
-    intros [->|[->|[->|[->|[->|[->|Hn]]]]]]; try done; try (vm_compute in Hi; discriminate). by apply elem_of_nil in Hn.
+    destruct Hfr as [H0 H1]. destruct Hdot as [Hd0 Hd1]. rewrite !elem_of_cons. intros [Hs|Hs].
+    - pose proof (sf_ident a bbs HF s Hs) as Hi. intros [->|[->|[->|[->|[->|[->|Hn]]]]]]; try done; try (vm_compute in Hi; discriminate). by apply elem_of_nil in Hn.
+    - intros [->|[->|[->|[->|[->|[->|Hn]]]]]]; try congruence; try (vm_compute in Hs; discriminate). by apply elem_of_nil in Hn.
   Qed.
-  Lemma σ_ident s : s ∈ idents a → σ s = s.
+  Lemma σ_ident s : keyish s → σ s = s.
   Proof. intros Hs. apply tie_swap_id. by apply ident_not_six. Qed.
   Lemma σ_t0 : σ t0 = "1'b0". Proof. unfold σ, tie_swap. by rewrite decide_True. Qed.
   Lemma σ_t1 : σ t1 = "1'b1".
@@ -44,17 +46,19 @@ Section swap.
   Lemma σ_k0 : σ "1'b0" = t0. Proof. rewrite <- σ_t0. apply σ_invol. Qed.
   Lemma σ_k1 : σ "1'b1" = t1. Proof. rewrite <- σ_t1. apply σ_invol. Qed.
 
-  Lemma nonident_none m : m ∉ idents a → symG a !! m = None ∧ m ∉ decl_inputs a.
+  Lemma nonident_none m : ¬ keyish m → symG bbs a !! m = None ∧ m ∉ decl_inputs a.
   Proof.
     intros Hm. split.
-    - destruct (symG a !! m) as [v|] eqn:E; [|done]. exfalso. apply Hm. apply (symG_item a) in E as (it & Hit & Hv).
-      eapply idents_item; [exact Hit|]. destruct it as [ns|ns|ns|t inst [|[o'|o'] ins]|l r|bb inst conns]; cbn [gate_view_sym] in Hv; try done.
-      + injection Hv as <- _. cbn [item_ids]. right. rewrite bind_cons. apply elem_of_app. left. by left.
-      + injection Hv as <- _. by left.
-    - intros Hi. apply Hm. unfold decl_inputs in Hi. apply elem_of_list_bind in Hi as (it' & Hi & Hit').
+    - destruct (symG bbs a !! m) as [v|] eqn:E; [|done]. exfalso. apply Hm.
+      assert (HG : sG (sF "1'b0" "1'b1" bbs a) !! m = Some (symv "1'b0" "1'b1" v)).
+      { rewrite (sG_symG a bbs Hsub "1'b0" "1'b1"); [by rewrite lookup_fmap, E| |done|by vm_compute].
+        split; intros Hs; pose proof (sf_ident a bbs HF _ Hs) as Hi; vm_compute in Hi; discriminate. }
+      assert (Hk0 : "1'b0" ∉ idents a ∧ "1'b1" ∉ idents a) by (split; intros Hs; pose proof (sf_ident a bbs HF _ Hs) as Hi; vm_compute in Hi; discriminate).
+      destruct (G_key a bbs Hsub "1'b0" "1'b1" Hk0 m _ HG) as [_ [?|?]]; [by right|by left].
+    - intros Hi. apply Hm. left. unfold decl_inputs in Hi. apply elem_of_list_bind in Hi as (it' & Hi & Hit').
       eapply idents_item; [exact Hit'|]. destruct it'; try (by apply elem_of_nil in Hi). done.
   Qed.
-  Lemma FS_nonident u0 u1 m : m ∉ idents a → m ≠ u0 → m ≠ u1 → FS a u0 u1 m = None.
+  Lemma FS_nonident u0 u1 m : ¬ keyish m → m ≠ u0 → m ≠ u1 → FS bbs a u0 u1 m = None.
   Proof. intros Hm H0 H1. unfold FS. rewrite decide_False, decide_False by done. destruct (nonident_none m Hm) as [-> Hi]. by rewrite decide_False. Qed.
   Lemma σ_nm x : goodop a x → σ (nm t0 t1 x) = nm "1'b0" "1'b1" x.
   Proof.
@@ -63,13 +67,15 @@ Section swap.
     - intros [->| ->]; [apply σ_t0|apply σ_t1].
   Qed.
 
-  Lemma k_not_ident : "1'b0" ∉ idents a ∧ "1'b1" ∉ idents a ∧ "1'bx" ∉ idents a ∧ "?x" ∉ idents a.
-  Proof. repeat split; intros Hs; pose proof (sf_ident a bbs HF _ Hs) as Hi; vm_compute in Hi; discriminate. Qed.
+  Lemma k_not_ident : ¬ keyish "1'b0" ∧ ¬ keyish "1'b1" ∧ ¬ keyish "1'bx" ∧ ¬ keyish "?x".
+  Proof. repeat split; (intros [Hs|Hs]; [pose proof (sf_ident a bbs HF _ Hs) as Hi; vm_compute in Hi; discriminate|vm_compute in Hs; discriminate]). Qed.
+  Lemma tie_not_keyish : ¬ keyish t0 ∧ ¬ keyish t1.
+  Proof. destruct Hfr, Hdot. split; intros [?|?]; congruence. Qed.
 
   (* renaming the constants of the T-instance to their canonical names gives the canonical instance *)
-  Lemma swap_FS m : ren_info σ <$> FS a t0 t1 (σ m) = FS a "1'b0" "1'b1" m.
+  Lemma swap_FS m : ren_info σ <$> FS bbs a t0 t1 (σ m) = FS bbs a "1'b0" "1'b1" m.
   Proof.
-    destruct six_neq as (N01 & N0x & N00 & N0b & N0c & N1x & N10 & N11 & N1c). destruct Hfr as [Hf0 Hf1].
+    destruct six_neq as (N01 & N0x & N00 & N0b & N0c & N1x & N10 & N11 & N1c). destruct tie_not_keyish as [Hf0 Hf1].
     destruct k_not_ident as (Hk0 & Hk1 & Hkx & Hqx).
     destruct (decide (m = "1'b0")) as [->|Hm0].
     { rewrite σ_k0. unfold FS. rewrite !decide_True by done. destruct (decide _); [|done]. simpl. unfold ren_info, mk_node. simpl. by rewrite set_map_empty. }
@@ -80,17 +86,18 @@ Section swap.
     { rewrite σ_t0. rewrite (FS_nonident t0 t1 "1'b0") by done. rewrite (FS_nonident "1'b0" "1'b1" t0) by done. done. }
     destruct (decide (m = t1)) as [->|Hmt1].
     { rewrite σ_t1. rewrite (FS_nonident t0 t1 "1'b1") by done. rewrite (FS_nonident "1'b0" "1'b1" t1) by done. done. }
-    destruct (decide (m ∈ idents a)) as [Hmi|Hmi].
+    assert (Hdec : keyish m ∨ ¬ keyish m). { unfold keyish. destruct (decide (m ∈ idents a)); [tauto|]. destruct (dotted m); [tauto|]. right. intros [?|?]; done. }
+    destruct Hdec as [Hmi|Hmi].
     - rewrite σ_ident by done. unfold FS. rewrite (decide_False (P := m = t0)), (decide_False (P := m = t1)), (decide_False (P := m = "1'b0")), (decide_False (P := m = "1'b1")) by done.
-      destruct (symG a !! m) as [v|] eqn:E.
+      destruct (symG bbs a !! m) as [v|] eqn:E.
       + simpl. unfold ren_info, mk_node. simpl. do 2 f_equal. apply set_eq. intros x. rewrite elem_of_map, elem_of_list_to_set. split.
         * intros (y & -> & Hy). apply elem_of_list_to_set in Hy. apply elem_of_list_fmap in Hy as (z & -> & Hz).
-          apply elem_of_list_fmap. exists z. split; [|done]. apply σ_nm. by destruct (symG_ops a bbs Hsub Hni m v z E Hz).
+          apply elem_of_list_fmap. exists z. split; [|done]. apply σ_nm. by destruct (symG_ops a bbs Hsub m v z E Hz).
         * intros (z & -> & Hz)%elem_of_list_fmap. exists (nm t0 t1 z). split.
-          -- symmetry. apply σ_nm. by destruct (symG_ops a bbs Hsub Hni m v z E Hz).
+          -- symmetry. apply σ_nm. by destruct (symG_ops a bbs Hsub m v z E Hz).
           -- apply elem_of_list_to_set. by apply elem_of_list_fmap_1.
       + destruct (decide (m ∈ decl_inputs a)); [|done]. simpl. unfold ren_info, mk_node. simpl. by rewrite set_map_empty.
-    - assert (Hs : σ m ∉ idents a). { intros Hs. apply Hmi. rewrite <- (σ_invol m). by rewrite (σ_ident _ Hs). }
+    - assert (Hs : ¬ keyish (σ m)). { intros Hs. apply Hmi. rewrite <- (σ_invol m). by rewrite (σ_ident _ Hs). }
       rewrite (FS_nonident t0 t1 (σ m)); [|done| |].
       + by rewrite (FS_nonident "1'b0" "1'b1" m).
       + intros Hx. apply Hm0. rewrite <- (σ_invol m), Hx. apply σ_t0.
